@@ -101,7 +101,7 @@ func registerStandardExt() {
 		}
 	}
 	// (the last one has a name that sorts before the built-in profiles' names)
-	for _, p := range []psatoken.IProfile{ExtLaxIDProfile{}, ExtDefaultingProfile{}, ExtShadowProfile{}, ExtOddFieldsProfile{}, ExtP1With265Profile{}, ExtTwoEmbedsProfile{}, ExtProfile{"http://acme.example/psa", 2}} {
+	for _, p := range []psatoken.IProfile{ExtLaxIDProfile{}, ExtDefaultingProfile{}, ExtShadowProfile{}, ExtOddFieldsProfile{}, ExtP1With265Profile{}, ExtTwoEmbedsProfile{}, ExtRawProfile{}, ExtProfile{"http://acme.example/psa", 2}} {
 		if _, _, ok := psatoken.VerifRegistryEntry(p.GetName()); !ok {
 			if err := psatoken.RegisterProfile(p); err != nil {
 				panic(err)
@@ -716,4 +716,31 @@ func (ExtTwoEmbedsProfile) GetClaims() psatoken.IClaims {
 		panic(err)
 	}
 	return &ExtTwoEmbedsClaims{P2Claims: psatoken.P2Claims{Profile: &ep, SwComponents: &psatoken.SwComponents[*psatoken.SwComponent]{}, CanonicalProfile: ExtTwoEmbedsName}}
+}
+
+// ExtRawClaims carries an opaque vendor claim kept in its encoded form.
+type ExtRawClaims struct {
+	psatoken.P2Claims
+	Opaque cbor.RawMessage `cbor:"-75600,keyasint,omitempty" json:"-"`
+}
+
+const ExtRawName = "http://example.com/psa/raw-claim"
+
+func (o *ExtRawClaims) Validate() error             { return psatoken.ValidateClaims(o) }
+func (o ExtRawClaims) MarshalCBOR() ([]byte, error) { return encoding.SerializeStructToCBOR(extEM, &o) }
+func (o *ExtRawClaims) UnmarshalCBOR(d []byte) error {
+	return encoding.PopulateStructFromCBOR(extDM, d, o)
+}
+func (o ExtRawClaims) MarshalJSON() ([]byte, error)  { return encoding.SerializeStructToJSON(&o) }
+func (o *ExtRawClaims) UnmarshalJSON(d []byte) error { return encoding.PopulateStructFromJSON(d, o) }
+
+type ExtRawProfile struct{}
+
+func (ExtRawProfile) GetName() string { return ExtRawName }
+func (ExtRawProfile) GetClaims() psatoken.IClaims {
+	ep := eat.Profile{}
+	if err := ep.Set(ExtRawName); err != nil {
+		panic(err)
+	}
+	return &ExtRawClaims{P2Claims: psatoken.P2Claims{Profile: &ep, SwComponents: &psatoken.SwComponents[*psatoken.SwComponent]{}, CanonicalProfile: ExtRawName}}
 }
